@@ -1139,6 +1139,117 @@ def slcoef_targets():
     return out
 
 
+def xftmle_targets():
+    """crossfit.tmle_calculator (SingleCrossfitTMLE / DoubleCrossfitTMLE): per measure the point estimate, the per-row influence
+    value inside the loop over the parts (part means enter as scalars mean_<name>), the per-part aggregate, the aggregate over the
+    parts and the divisor; crossfit.targeting_step: the clever covariates and the observed-arm prediction."""
+    CF = os.path.join(REPO, 'zepid/causal/doublyrobust/crossfit.py')
+    tree = ast.parse(open(CF).read())
+    fn = find_function(tree, 'tmle_calculator')
+    out = []
+    top = [st for st in fn.body if isinstance(st, ast.If)]
+    if len(top) != 1:
+        raise TranslateError('tmle_calculator: expected one if/elif chain')
+    branches, cur = [], top[0]
+    while True:
+        branches.append((ast.unparse(cur.test), cur.body))
+        if len(cur.orelse) == 1 and isinstance(cur.orelse[0], ast.If):
+            cur = cur.orelse[0]
+        else:
+            if not (len(cur.orelse) == 1 and isinstance(cur.orelse[0], ast.Raise)):
+                raise TranslateError('tmle_calculator: final else is not a raise')
+            break
+    want_tests = ["measure in ['ate', 'risk_difference']", "measure == 'risk_ratio'", "measure == 'odds_ratio'"]
+    if [t for t, _ in branches] != want_tests:
+        raise TranslateError('tmle_calculator: branch tests %s' % [t for t, _ in branches])
+    cols = {'ys': 'y', 'ystar1s': 'ystar1', 'ystar0s': 'ystar0', 'ystaras': 'ystara', 'haws': 'haw', 'h1ws': 'h1w', 'h0ws': 'h0w'}
+    fields = {'ys': 'x_y r', 'ystar1s': 'x_q1 r', 'ystar0s': 'x_q0 r', 'ystaras': 'x_qa r', 'haws': 'x_ha r', 'h1ws': 'x_h1 r', 'h0ws': 'x_h0 r'}
+    for tag, (_, body) in zip(('rd', 'rr', 'or'), branches):
+        body = list(body)
+        if tag == 'rd':
+            # the unbounding prelude of measure == 'ate' (continuous outcomes): all four arrays through tmle_unit_unbound
+            if not (isinstance(body[0], ast.If) and ast.unparse(body[0].test) == "measure == 'ate'"):
+                raise TranslateError('tmle_calculator: ate prelude')
+            pre = [ast.unparse(x) for x in body[0].body]
+            wantp = ['%s = tmle_unit_unbound(%s, mini=lower_bound, maxi=upper_bound)' % (v, v) for v in ('y', 'ystar1', 'ystar0', 'ystara')]
+            if pre != wantp or body[0].orelse:
+                raise TranslateError('tmle_calculator: ate prelude is %s' % pre)
+            body = body[1:]
+        kinds = [type(x).__name__ for x in body]
+        if kinds != ['Assign', 'Assign', 'For', 'Return']:
+            raise TranslateError('tmle_calculator[%s]: statements %s' % (tag, kinds))
+        est, var0, loop, ret = body
+        if ast.unparse(est.targets[0]) != 'estimate' or ast.unparse(var0) != 'variance = []' \
+                or ast.unparse(loop.iter) != 'set(splits)' or ast.unparse(loop.target) != 's' \
+                or ast.unparse(ret.value) not in ('(estimate, np.mean(variance) / y.shape[0])', 'estimate, np.mean(variance) / y.shape[0]'):
+            raise TranslateError('tmle_calculator[%s]: estimate / loop / return changed shape' % tag)
+        seen, ic = set(), None
+        for st in loop.body:
+            u = ast.unparse(st)
+            if isinstance(st, ast.Assign) and isinstance(st.targets[0], ast.Name) and st.targets[0].id in cols \
+                    and u == '%s = %s[splits == s]' % (st.targets[0].id, cols[st.targets[0].id]):
+                seen.add(st.targets[0].id)
+            elif isinstance(st, ast.Assign) and ast.unparse(st.targets[0]) == 'ic' and ic is None:
+                ic = st.value
+            elif u == 'variance.append(np.var(ic, ddof=1))' and ic is not None:
+                pass
+            else:
+                raise TranslateError('tmle_calculator[%s]: loop statement `%s`' % (tag, u[:70]))
+        if ic is None or not ast.unparse(loop.body[-1]).startswith('variance.append'):
+            raise TranslateError('tmle_calculator[%s]: no influence values / no per-part variance' % tag)
+        v = _MeanRewrite().visit(ast.parse(ast.unparse(ic), mode='eval').body)
+        names = [p_ for p_ in _free_names(v) if p_ != 'np']
+        bad = [p_ for p_ in names if p_ not in seen and p_ != 'estimate' and not (p_.startswith('mean_') and p_[5:] in seen)]
+        if bad:
+            raise TranslateError('tmle_calculator[%s]: influence values use %s' % (tag, bad))
+        tr = FnTranslator('xf_tmle_ic_' + tag, names)
+        term = emit(tr.expr(v), 'Q')
+        for nme in sorted(names, key=len, reverse=True):
+            rep = fields[nme] if nme in fields else ('v_' + nme)
+            term = term.replace('v_' + nme, '(%s)' % rep if nme in fields else rep)
+        means = sorted(nme for nme in names if nme.startswith('mean_'))
+        # the point estimate: aggregates of whole columns
+        ev = _MeanRewrite().visit(ast.parse(ast.unparse(est.value), mode='eval').body)
+        if tag == 'rd':
+            if ast.unparse(est.value) != 'np.mean(ystar1 - ystar0)':
+                raise TranslateError('tmle_calculator[rd]: estimate is %s' % ast.unparse(est.value))
+            etxt = 'meanq (map (fun r => x_q1 r - x_q0 r) all)'
+        else:
+            tre = FnTranslator('xf_tmle_est_' + tag, ['mean_ystar1', 'mean_ystar0'])
+            etxt = emit(tre.expr(ev), 'Q').replace('v_mean_ystar1', '(meanq (map x_q1 all))').replace('v_mean_ystar0', '(meanq (map x_q0 all))')
+        lets = ''.join('    let v_%s := meanq (map %s part) in\n' % (m_, {'mean_ystar1s': 'x_q1', 'mean_ystar0s': 'x_q0'}[m_]) for m_ in means
+                       if m_ in ('mean_ystar1s', 'mean_ystar0s'))
+        if len(lets.splitlines()) != len(means):
+            raise TranslateError('tmle_calculator[%s]: part means %s' % (tag, means))
+        txt = ('(* all: every row; parts: the rows of each part (splits == s); n: y.shape[0] *)\n'
+               'Definition xf_tmle_est_%s_Q (all : list xrow) : Q :=\n  %s.\n'
+               'Definition xf_tmle_part_var_%s_Q (v_estimate : Q) (part : list xrow) : Q :=\n%s    var_ddof1 (map (fun r => %s) part).\n'
+               'Definition xf_tmle_var_%s_Q (v_estimate : Q) (parts : list (list xrow)) (n : Q) : Q :=\n'
+               '  meanq (map (xf_tmle_part_var_%s_Q v_estimate) parts) / n.' % (tag, etxt, tag, lets, term, tag, tag))
+        out.append(RawTarget('xf_tmle_' + tag, txt, ['all', 'parts', 'n'], ['estimate', 'variance']))
+    # ---- targeting_step: clever covariates and the observed-arm prediction (a used arithmetically: 0/1)
+    ts = find_function(tree, 'targeting_step')
+    defs = {}
+    for st in ts.body:
+        if isinstance(st, ast.Assign) and isinstance(st.targets[0], ast.Name) and st.targets[0].id in ('h1w', 'h0w', 'haw', 'py_o'):
+            if st.targets[0].id in defs:
+                raise TranslateError('targeting_step: %s assigned twice' % st.targets[0].id)
+            defs[st.targets[0].id] = st.value
+    if set(defs) != {'h1w', 'h0w', 'haw', 'py_o'}:
+        raise TranslateError('targeting_step: clever covariate lines missing')
+    ret = [st for st in ts.body if isinstance(st, ast.Return)]
+    if len(ret) != 1 or ast.unparse(ret[0].value) not in ('(ystar1, ystar0, ystara, h1w, h0w, haw)', 'ystar1, ystar0, ystara, h1w, h0w, haw'):
+        raise TranslateError('targeting_step: return value')
+    parts_ = []
+    for nm in ('h1w', 'h0w', 'haw', 'py_o'):
+        tr = FnTranslator('xf_ts_' + nm, [p_ for p_ in _free_names(defs[nm]) if p_ != 'a'])
+        e = tr.expr(_IndA().visit(ast.parse(ast.unparse(defs[nm]), mode='eval').body))
+        ps = ' '.join('v_%s' % p_ for p_ in tr.params)
+        parts_.append('Definition xf_ts_%s_Q (v_a : bool) (%s : Q) : Q :=\n  %s.' % (nm, ps, emit(e, 'Q')))
+    out.append(RawTarget('xf_targeting', '\n'.join(parts_), ['a', 'pa1', 'pa0'], ['h1w', 'h0w', 'haw', 'py_o']))
+    return out
+
+
 class RawTargetR(RawTarget):
     """ready-made Coq text over R"""
     def __init__(self, name, r_text):
@@ -1166,6 +1277,7 @@ GROUPS = {
     'gener': gener_targets,
     'siptw': siptw_targets,
     'slcoef': slcoef_targets,
+    'xftmle': xftmle_targets,
 }
 
 
@@ -1180,7 +1292,7 @@ def generate(groups=None):
         try:
             ts = fn()
             r = HEADER_R + '\n' + '\n\n'.join(t.coq() for t in ts) + '\n'
-            q = HEADER_Q + ('From Zepid Require Import Base.QSum Base.QAgg.\n' if g in ('pool', 'gfmarg', 'siptw', 'slcoef') else '') + ('From Zepid Require Import Base.QSum Base.QAgg Base.Rows Model.Estimators.\n' if g == 'xfvar' else '') + ('From Zepid Require Import Model.Gate.\n' if g == 'gate' else '') + ('From Zepid Require Import Base.QSum Base.QAgg Model.Generalize.\n' if g == 'gener' else '') + '\n' + '\n\n'.join(t.coq_q() for t in ts) + '\n'
+            q = HEADER_Q + ('From Zepid Require Import Base.QSum Base.QAgg.\n' if g in ('pool', 'gfmarg', 'siptw', 'slcoef') else '') + ('From Zepid Require Import Base.QSum Base.QAgg Base.Rows Model.Estimators.\n' if g == 'xfvar' else '') + ('From Zepid Require Import Model.Gate.\n' if g == 'gate' else '') + ('From Zepid Require Import Base.QSum Base.QAgg Base.Rows Model.Estimators Model.Variance.\n' if g == 'xftmle' else '') + ('From Zepid Require Import Base.QSum Base.QAgg Model.Generalize.\n' if g == 'gener' else '') + '\n' + '\n\n'.join(t.coq_q() for t in ts) + '\n'
             side[g] = [t.sidecar() for t in ts]
             err = None
         except (TranslateError, SyntaxError, OSError) as e:
